@@ -40,6 +40,11 @@ AMBIENT = [
 CLOCK = re.compile(r"std::time::Instant::(now|elapsed)$")
 
 
+# rayon operations whose result depends on how the work was split or which thread ran first (element-wise for_each / ordered collect do not)
+PAR_ORDER_DEPENDENT = {"sum", "product", "reduce", "reduce_with", "try_reduce", "try_reduce_with", "fold", "fold_with", "try_fold", "try_fold_with",
+                       "find_any", "position_any", "find_map_any", "current_num_threads", "current_thread_index", "max_num_threads"}
+
+
 def ambient_calls(F):
     """[(body, bb, term, why)] for every call of an ambient source; clock calls separately."""
     amb, clock = [], []
@@ -130,6 +135,23 @@ def r1(F, R, P):
                 R.ok("C10-R1", key, site, "controller-side timing (progress callback / timeouts)")
             else:
                 R.bad("C10-R1", key, site, "clock read in %s, which is neither the controller nor the worker accounting" % b.path)
+    # work sharing inside chain code: a rayon call below Chain::draw / the math kernels splits and reduces in an order that depends on the size
+    # of the thread pool and on work stealing (floating-point sums are not associative), so the draws would depend on num_cores
+    npar = 0
+    for pth in sorted(chain_reach):
+        cb = F.bodies.get(pth)
+        if cb is None or (worker is not None and cb.path == worker.path):
+            continue
+        for cbody in [cb] + K.all_closures_of(F, cb.path):
+            for bb, t in cbody.calls():
+                c = t["callee"]
+                kr = str(c.get("krate") or "")
+                pp = strip_generics(c.get("path") or "")
+                if (kr.startswith("rayon") or pp.startswith(("rayon::", "rayon_core::"))) and pp.split("::")[-1] in PAR_ORDER_DEPENDENT:
+                    npar += 1
+                    R.bad("C10-R1", "%s:rayon:%s" % (cbody.path, pp.split("::")[-1]), "%s @%s" % (cbody.path, loc(t["span"])),
+                          "chain code calls %s: the split and the order of the reduction depend on the thread pool, the result is not a function of seed and chain index alone" % pp)
+    R.ok("C10-R1", "chain-code-sequential", "chain-reachable code", "%d functions reachable from a chain scanned: %d thread-pool calls" % (len(chain_reach), npar))
     # ChainProgress::update stores the duration only in `runtime`
     upd = [b for b in F.inherent_methods("ChainProgress", "update")]
     if not upd:
